@@ -245,7 +245,8 @@ def main():
         f = violations[0]
         try:
             if not (f['case'] or {}).get('cmp'):
-                f = dict(f, case=runner.shrink(f['case'], 'impl-violation'))
+                orc = (f.get('oracle') or [[0, '']])[0][1].split()[0] if f.get('oracle') else None
+                f = dict(f, case=runner.shrink(f['case'], 'impl-violation', oracle=orc))
                 ff, _, _, _, _ = runner.process_chunk([f['case']])
                 ff = [x for x in ff if x['kind'] == 'impl-violation']
                 if ff:
